@@ -1,6 +1,7 @@
 import Rangers.Model.TxAuth
 import Rangers.Proofs.TxAuth
 import Rangers.Proofs.TxAuthCodec
+import Rangers.Proofs.TxAuthRlp
 /-!
 # C07 — only authentic transactions are admitted
 
@@ -519,8 +520,10 @@ theorem honest_eth_accepted (cr : Crypto) (cfg : ChainCfg) (h : Nat) (e : EthTx)
     verifyTx cr cfg h (convertTx cr e sender (encodeTx e)) = .ok :=
   honest_eth_accepted_of_roundtrip cr cfg h e sender (payload_roundtrip e wf).1 (payload_roundtrip e wf).2 hsnd
 
-example : WfEthTx toyEth155 := by
-  constructor <;> first | decide | (intro a ha; cases ha)
+example : WfEthTx toyEth155 :=
+  ⟨by decide, by decide, (by intro a ha; cases ha), by
+    simp [toyEth155, itemOfTx, coreItems, toItem, RLP.Item.sizeOK, RLP.Item.sizeOKs, RLP.encodeList, RLP.encode,
+      RLP.encString, RLP.encHead, RLP.toBE, RLP.toBEf]⟩
 
 /-- When the EIP-155 signer of chain `c` recovers a sender: `v = 2c+35+k` with
     recovery bit `k`, `r`, `s` in range with low `s`, and the library recovers an
